@@ -37,6 +37,7 @@ func init() {
 		"vfSpecSub": func(fr *frame, a []value) value { return vfSpecArith(fr, "-", a) },
 		"vfSpecMul": func(fr *frame, a []value) value { return vfSpecArith(fr, "*", a) },
 		"vfOpaque":  vfOpaque,
+		"vfExistsXY": vfExistsXY,
 		"vfMapOrderMark": func(fr *frame, a []value) value {
 			fr.i.needPath("vfMapOrderMark")
 			fr.i.ps.mapMark = true
@@ -466,4 +467,46 @@ func vfOpaque(fr *frame, a []value) value {
 	}
 	i.noteInexact("opaque:" + a[0].(string))
 	return sym{st.InexactVar("op_"+a[0].(string), args...), types.Float64}
+}
+
+// vfExistsXY(label, k, pred): an existential obligation - some real location in
+// [-2^k,2^k]^2 satisfies pred (a harness closure over XY that does not branch on
+// its argument). Decided by one satisfiability query with a fresh symbolic
+// point; unsat is reported as a violation of label. The native runtime searches
+// a quarter-integer grid instead.
+func vfExistsXY(fr *frame, a []value) value {
+	i := fr.i
+	i.needPath("vfExistsXY")
+	label := a[0].(string)
+	k := int(asInt64(a[1]))
+	ps := i.ps
+	ps.asserts++
+	n := ps.inputSeq["\x00exists"]
+	ps.inputSeq["\x00exists"] = n + 1
+	st := i.st
+	pt := structure{
+		sym{st.LatticeRealVar(fmt.Sprintf("ex%d.x", n), k), types.Float64},
+		sym{st.LatticeRealVar(fmt.Sprintf("ex%d.y", n), k), types.Float64},
+	}
+	res := call(i, fr, 0, a[2], []value{pt})
+	switch c := res.(type) {
+	case bool:
+		if !c && ps.pos >= len(ps.prefix) {
+			i.recordViolation("assert", label, ps.model)
+		}
+	case sym:
+		if ps.pos < len(ps.prefix) {
+			return nil
+		}
+		r, _ := i.checkSat(c.t)
+		switch r {
+		case Sat:
+			ps.discharged++
+		case Unsat:
+			i.recordViolation("assert", label, ps.model)
+		default:
+			ps.inconclusive = append(ps.inconclusive, "exists "+label+": solver returned unknown")
+		}
+	}
+	return nil
 }
